@@ -96,8 +96,9 @@ TNext ==
    /\ l <= NTrace /\ l' = l + 1 /\ Consumed(l) /\ UNCHANGED <<prog, ip, pc, cur, chain, stk, nxt, twice>>
    /\ LET ev == TraceLog[l] IN
       IF ev.e = "Reset" THEN Fresh /\ sync' = TRUE
-      ELSE IF ~sync THEN UNCHANGED <<AllShared, sync>>
+      \* (the events of an execution are written when it has ended: a driver that dies inside one leaves nothing but the Fault)
       ELSE IF ev.e = "Fault" THEN Flag(l, <<"fault">>, [kind |-> ev.kind, where |-> ev.where]) /\ sync' = FALSE /\ UNCHANGED AllShared
+      ELSE IF ~sync THEN UNCHANGED <<AllShared, sync>>
       ELSE LET vd == Verdict(ev) IN
            IF vd.ok THEN Effect(ev) /\ sync' = TRUE
            ELSE Flag(l, <<vd.clause>>, [owner |-> owner, wq |-> wq]) /\ sync' = FALSE /\ UNCHANGED AllShared
